@@ -80,10 +80,22 @@ func (m *c10mon) Check(s *sim.Sim, st *sim.Step) []*sim.Violation {
 		return vs
 	}
 	if rec.FaultsFired > 0 {
-		// a backend call failed during this request (fault noise): what logout owes the client then is
-		// C18's question; the clauses below describe a logout that ran to completion
-		m.stats.Count("logout-during-backend-fault")
-		return vs
+		// a backend call failed during this request. Logging out needs nothing from the user table: with
+		// the user table unreachable (every failed call is a user lookup) a logout that answers without an
+		// error status is a logout response like any other — being logged in while the database is down
+		// is one more reachable state. Any other failure (renderer, …), and any 5xx answer, is C18's
+		// question: the clauses below describe a logout that ran to completion.
+		onlyLookups := true
+		for _, c := range rec.Calls {
+			if strings.HasPrefix(c.Result, "fault:") && c.Op != "Load" {
+				onlyLookups = false
+			}
+		}
+		if !onlyLookups || !right || rec.Status >= 500 {
+			m.stats.Count("logout-during-backend-fault")
+			return vs
+		}
+		m.stats.Count("logout-while-user-table-unreachable")
 	}
 	wl := s.Cfg.Whitelist
 	if right {
@@ -161,6 +173,10 @@ func c10Extra(s *sim.Sim) *sim.Action {
 		return act("logout", b, -9, "", "method", pickS(r, "GET", "POST", "DELETE", "PUT", "HEAD", "PATCH"))
 	case 2, 3, 4:
 		return act("visit", b, -9, "", "route", pickS(r, "/protected/bare", "/public", "/protected/full"))
+	case 5:
+		// the user table is unreachable while the browser logs out
+		s.Pending = append(s.Pending, act("logout", b, -9, ""), act("visit", b, -9, "", "route", pickS(r, "/protected/bare", "/public")))
+		return act("faultnext", b, -9, "", "op", "Load")
 	}
 	return act("logout", b, -9, "")
 }
@@ -175,7 +191,7 @@ func init() {
 	prof.Cls = map[string]map[string]int{"login": {"ok": 80, "wrong": 12, "near": 4, "empty": 4}}
 	register(&Check{
 		ID: "C10", Level: "exploration",
-		Rule:  "states are harvested, not hand-made: the mixed random histories of the C01 generator (all flows, all module subsets, whitelists of 0/1/3 application keys, logout method GET/POST/DELETE) are cut at random points by a logout from whatever state the browser is in (logged in / half-authed via remember / mid-2FA login / mid-2FA setup / mid-e-mail-verify / mid-OAuth2 / SMS code outstanding / anonymous), followed by a visit. Oracle: after the logout response the server-side session holds only whitelisted keys (values preserved) and flash keys, the jar has no rm cookie, the follow-up request is unauthenticated; any other method on /logout leaves uid, auth marks, pending logins and the cookie as they were. distinct_nontrivial = distinct (method, configured?, state labels, whitelist size, cookie present, mode, expire installed) signatures.",
+		Rule:  "states are harvested, not hand-made: the mixed random histories of the C01 generator (all flows, all module subsets, whitelists of 0/1/3 application keys, logout method GET/POST/DELETE) are cut at random points by a logout from whatever state the browser is in (logged in / half-authed via remember / mid-2FA login / mid-2FA setup / mid-e-mail-verify / mid-OAuth2 / SMS code outstanding / anonymous), followed by a visit; some logouts happen while the user table is unreachable (every user lookup of that request fails). Oracle: after the logout response the server-side session holds only whitelisted keys (values preserved) and flash keys, the jar has no rm cookie, the follow-up request is unauthenticated; any other method on /logout leaves uid, auth marks, pending logins and the cookie as they were. distinct_nontrivial = distinct (method, configured?, state labels, whitelist size, cookie present, mode, expire installed) signatures.",
 		Units: func(t string) int { return tierN(t, 700, 30000) },
 		Run: func(c *RunCtx, unit int) {
 			r := Rng(c.Seed, "C10", unit)
@@ -189,7 +205,7 @@ func init() {
 		},
 		Floors: func(t string) map[string]int {
 			return map[string]int{"logout-from:logged-in": 100, "logout-from:halfauth": 3, "logout-from:mid-2fa-login": 10, "logout-from:mid-2fa-setup": 3, "logout-from:mid-oauth2": 10,
-				"logout-from:anonymous": 50, "logout-with-rm-cookie": 20, "whitelisted-kept": 10, "follow-up-after-logout": 50, "wrong-method:GET": 10}
+				"logout-from:anonymous": 50, "logout-with-rm-cookie": 20, "whitelisted-kept": 10, "follow-up-after-logout": 50, "wrong-method:GET": 10, "logout-while-user-table-unreachable": 10}
 		},
 		Assumptions: []string{"flash_success/flash_error written by the logout redirect itself are not authentication state and are exempt"},
 	})
